@@ -99,15 +99,18 @@ func (f *FeedbackAdapter) unpackRunLengthChunk(
 			ssrc:           0,
 			sequenceNumber: i,
 		}
-		if ack, ok := f.history.get(key); ok {
-			if chunk.PacketStatusSymbol != rtcp.TypeTCCPacketNotReceived {
-				if len(deltas)-1 < deltaIndex {
-					return deltaIndex, refTime, result, errInvalidFeedback
-				}
-				refTime = refTime.Add(time.Duration(deltas[deltaIndex].Delta) * time.Microsecond)
-				ack.Arrival = refTime
-				deltaIndex++
+		ack, ok := f.history.get(key)
+		// Every received packet owns one delta, whether or not it is still in
+		// the history: the delta has to be consumed to keep later packets aligned.
+		if chunk.PacketStatusSymbol != rtcp.TypeTCCPacketNotReceived {
+			if len(deltas)-1 < deltaIndex {
+				return deltaIndex, refTime, result, errInvalidFeedback
 			}
+			refTime = refTime.Add(time.Duration(deltas[deltaIndex].Delta) * time.Microsecond)
+			ack.Arrival = refTime
+			deltaIndex++
+		}
+		if ok {
 			result[resultIndex] = ack
 		}
 		resultIndex++
@@ -127,15 +130,18 @@ func (f *FeedbackAdapter) unpackStatusVectorChunk(
 			ssrc:           0,
 			sequenceNumber: start + uint16(i), //nolint:gosec // G115
 		}
-		if ack, ok := f.history.get(key); ok {
-			if symbol != rtcp.TypeTCCPacketNotReceived {
-				if len(deltas)-1 < deltaIndex {
-					return deltaIndex, refTime, result, errInvalidFeedback
-				}
-				refTime = refTime.Add(time.Duration(deltas[deltaIndex].Delta) * time.Microsecond)
-				ack.Arrival = refTime
-				deltaIndex++
+		ack, ok := f.history.get(key)
+		// Every received packet owns one delta, whether or not it is still in
+		// the history: the delta has to be consumed to keep later packets aligned.
+		if symbol != rtcp.TypeTCCPacketNotReceived {
+			if len(deltas)-1 < deltaIndex {
+				return deltaIndex, refTime, result, errInvalidFeedback
 			}
+			refTime = refTime.Add(time.Duration(deltas[deltaIndex].Delta) * time.Microsecond)
+			ack.Arrival = refTime
+			deltaIndex++
+		}
+		if ok {
 			result[resultIndex] = ack
 		}
 		resultIndex++
